@@ -133,13 +133,18 @@ func runC11(c *Ctx) {
 			v, isC := StoredConst(st)
 			return isC && v == upgrading
 		}
-		calls := CallsIn(fn, ensure)
+		// the re-evaluation may sit in progressBatches itself or in helpers extracted from it; each
+		// call is judged inside the function that contains it
+		var calls []ssa.CallInstruction
+		for _, f := range samePkgClosure(p, fn) {
+			calls = append(calls, CallsIn(f, ensure)...)
+		}
 		if len(calls) < 2 {
 			c.Ob("R11.1", "progressBatches#readiness-calls", fn.Pos(), false, "Verifying and Ready both re-evaluate readiness", "anchor: expected 2 calls of EnsureBatchPodsReadyAndLabeled")
 		}
 		for _, call := range calls {
 			n := 0
-			for _, b := range fn.Blocks {
+			for _, b := range call.Parent().Blocks {
 				for k := range b.Succs {
 					if EdgeFactMatches(b, k, FNotNil(MResultOf(call, -1))) {
 						n++
@@ -177,7 +182,7 @@ func runC11(c *Ctx) {
 				}
 			}
 			reach, _ := CanReach(Entry(fn), func(in ssa.Instruction) bool { return in == ssa.Instruction(ret) }, ReachOpts{CutEdge: func(b *ssa.BasicBlock, k int) bool {
-				return EdgeFactMatches(b, k, FCmp("<=", MField("DesiredUpdatedReplicas"), MConst("0"))) || EdgeFactMatches(b, k, FCmp("!=", MField("UpdatedReadyReplicas"), MConst("0")))
+				return EdgeFactMatches(b, k, FOr(FCmp("<=", MField("DesiredUpdatedReplicas"), MConst("0")), FCmp("!=", MField("UpdatedReadyReplicas"), MConst("0"))))
 			}})
 			if reach {
 				missing = append(missing, "not(DesiredUpdatedReplicas > 0 and UpdatedReadyReplicas == 0)")
@@ -360,12 +365,7 @@ func checkFinalizeWaits(c *Ctx, rule string) {
 			continue
 		}
 		waitEdge := func(b *ssa.BasicBlock, k int) bool {
-			for _, m := range waitOK {
-				if EdgeFactMatches(b, k, m) {
-					return true
-				}
-			}
-			return false
+			return EdgeFactMatches(b, k, FOr(waitOK...))
 		}
 		for _, ret := range returnsOf(fn) {
 			fs := FactsFor(fn).At(ret.Block())
